@@ -333,7 +333,7 @@ pub struct Sc15 {
     pub bisync: Option<super::c02::Sc>,
 }
 
-const GLOB_ALPHA: &[&str] = &["a", "b", "*", "?", ".", "ab", "a*", "?b", "*.", "b.a"];
+const GLOB_ALPHA: &[&str] = &["a", "b", "*", "?", ".", "ab", "a*", "?b", "*.", "b.a", "é", "猫b"];
 
 fn glob_name(r: &mut Rng) -> String {
     let n = r.urange(1, 3);
